@@ -87,6 +87,23 @@ def impl(case):
         except Exception as e:  # noqa
             st["out"] = type(e).__name__
         st["gens"] = snapshot()
+        # the container protocol reads the held strings too: len, membership, iteration (also after an iteration
+        # was started and abandoned, and nested over the same object)
+        try:
+            held = st["gens"]
+            prot = []
+            if len(c) != len(held):
+                prot.append("len() = %d, %d strings held" % (len(c), len(held)))
+            next(iter(c), None)
+            if [str(x) for x in c] != held:
+                prot.append("iteration after an abandoned one yields %s" % [str(x) for x in c])
+            if held and [(str(a), str(b)) for a in c for b in c.copy()] != [(a, b) for a in held for b in held]:
+                prot.append("iteration while a copy is iterated differs")
+            if any(P(h) not in c for h in held):
+                prot.append("a held string is not `in` the collection")
+            st["protocol"] = prot
+        except Exception as e:  # noqa
+            st["protocol"] = ["container protocol raised %s: %s" % (type(e).__name__, str(e)[:80])]
         steps.append(st)
     return {"steps": steps}
 
@@ -188,6 +205,8 @@ def judge(ck, case, r, stats):
                                  {"history": {"init": case["init"], "ops": case["ops"][:i + 1]}, "step": i})
             if st.get("cache_changed_by_query"):
                 fails += ck.fail(None, "read-only query %s changed the stored canonical vertices" % (o[1:],), {"history": {"init": case["init"], "ops": case["ops"][:i + 1]}, "step": i})
+        if st.get("protocol"):
+            fails += ck.fail(None, "after %s: %s" % (o, "; ".join(st["protocol"])[:300]), {"history": {"init": case["init"], "ops": case["ops"][:i + 1]}, "step": i, "protocol": st["protocol"]})
         if o[0] == "copy" and st.get("out") == "ok":
             if not st["copy_equal"] or not st["copy_independent"]:
                 fails += ck.fail(None, "copy is not an independent equal collection", {"history": {"init": case["init"], "ops": case["ops"][:i + 1]}, "step": i, "detail": st})
